@@ -378,13 +378,19 @@ pub(crate) fn load_defs(ctx: &mut Context, defs: Defs) -> Vec<String> {
         } = *def
         {
             let long_name = resolver.intern(long_name);
-            resolver.input.insert(
-                Id {
-                    namespace: Namespace::Unit,
-                    name: long_name,
-                },
-                def.clone(),
-            );
+            let long_id = Id {
+                namespace: Namespace::Unit,
+                name: long_name,
+            };
+            if resolver
+                .input
+                .insert(long_id.clone(), def.clone())
+                .is_some()
+            {
+                resolver
+                    .errors
+                    .push(format!("warning: multiple units named {}", long_id.name));
+            }
         }
 
         let name = resolver.intern(&name);
